@@ -19,11 +19,24 @@ def run(pkgs):
             if e.get("Test") and e.get("Action") in ("pass", "fail", "skip"):
                 got[e["Package"] + "::" + e["Test"]] = e["Action"]
     return got
-got = run("./...")
+MODS = [".", "./integration_tests"]   # the modules of /w/out/gomods.txt
+def run_all():
+    got = {}
+    for m in MODS:
+        got.update(run_in(m, "./..."))
+    return got
+def run_in(mod, pkgs):
+    global repo
+    base = repo
+    repo = os.path.join(base, mod)
+    try:
+        return run(pkgs)
+    finally:
+        repo = base
+got = run_all()
 bad = sorted(t for t in stable if got.get(t) != "pass")
 if bad:
-    pk = " ".join(sorted(set("./" + t.split("::")[0].replace("github.com/tikv/client-go/v2/", "") for t in bad)))
-    again = run(pk)   # timing-sensitive tests flake under load: one re-run of the affected packages
+    again = run_all()   # timing-sensitive tests flake under load: one re-run
     bad = sorted(t for t in bad if again.get(t) != "pass")
 print("stable tests: %d, passing: %d, not passing: %d" % (len(stable), len(stable) - len(bad), len(bad)))
 for t in bad[:30]:
